@@ -24,6 +24,10 @@ __date__ = "2022-07-15"
 # join the Aegean logger
 log = logging.getLogger('Aegean')
 
+# sqlite3 has no adapter for numpy integers (it would store their raw bytes)
+for _np_int in (np.int64, np.int32):
+    sqlite3.register_adapter(_np_int, int)
+
 
 # writing table formats
 def check_table_formats(files):
